@@ -88,6 +88,15 @@ Definition s_layout (k : nat) (hdr : bool) (delim : list N) (recs : list (list N
   let L := (length (canon_list k) * 8 + (length (canon_list k) - 1) * length delim + 1)%nat in
   show_layout (layout (if hdr then header_bytes_spec k delim else []) L (map (fun _ => repeat 0 L) recs)).
 
+(* the mapped writer at the level of bytes (Proof/MappedBytes.v): the file is resized over stale content, then the
+   header and the rows are copied to their offsets, here last row first.  C05_mapped_and_batch_writer_agree_from_file_bytes:
+   equal to m_ofile for every order and every stale content; used as the model line of small mapped `ofile` cases *)
+Definition m_ofile_mapped (k : nat) (hdr : bool) (delim : list N) (recs : list (list N)) : list N :=
+  let h := if hdr then header_bytes k delim else [] in
+  let L := row_len k (length delim) in
+  let rows := map (oligo_row_bytes k true delim) recs in
+  apply_writes (rev (layout h L rows)) (set_len (length h + L * length recs) (repeat 120 (L + 3))).
+
 (* ---------- C14: what the hook log must contain ---------- *)
 Definition windows (k : nat) (recs : list (list N)) : nat := fold_right (fun s a => (oligo_total k s + a)%nat) 0%nat recs.
 Definition windows_spec (k : nat) (recs : list (list N)) : nat := fold_right (fun s a => (oligo_total_spec k s + a)%nat) 0%nat recs.
